@@ -228,9 +228,47 @@ def h_mismatch():
     return ['mismatch', p.a.state.name, p.b.state.name]
 
 
+def h_preauth(kind):
+    """a peer that has only completed IKE_SA_INIT (it holds the SK_* keys of the unauthenticated DH exchange, nothing else) sends a PROTECTED request
+    other than IKE_AUTH as its request number 1 - a well-formed CREATE_CHILD_SA, an INFORMATIONAL - with an arbitrary exchange type byte: the
+    responder neither becomes established nor installs or tracks a CHILD_SA"""
+    from symx import core
+    eng = core.engine()
+    m, ik = MODS['message'], MODS['ikesa']
+    S = ik.IkeSa.State
+    # donor: a genuine CREATE_CHILD_SA / DELETE request of an established pair (payloads only)
+    donor = world.Pair()
+    if kind == 'create_child':
+        dreq = donor.to_state('A', 'NEW_CHILD_REQ_SENT')
+    elif kind == 'rekey_ike':
+        dreq = donor.to_state('A', 'REK_IKE_SA_REQ_SENT')
+    else:
+        dreq = donor.to_state('A', 'DEL_IKE_SA_REQ_SENT')
+    payloads = m.Message.parse(bytes(dreq), crypto=donor.b.peer_crypto).encrypted_payloads
+    donor_exch = 36 if kind != 'delete' else 37
+    p = world.Pair()
+    p.send('A', p.send('B', p.init_req()))          # B: INIT_RES_SENT; A holds the same keys
+    a, b = p.a, p.b
+    exch = eng.sym_int('exchange', 35, 37)
+    req = m.Message(a.spi_i, a.spi_r, 2, 0, donor_exch, False, False, True, 1, [], payloads, crypto=a.my_crypto)
+    data = world.restamp(req.to_bytes(), a.my_crypto, exchange=exch)
+    n_log = len(p.B.kernel.log)
+    try:
+        p.B.call(b.process_message, data)
+    except m.IkeSaError:
+        pass
+    new = [x for x in p.B.kernel.log[n_log:] if x['op'] == 'NEWSA']
+    if b.state == S.ESTABLISHED or new or b.child_sas or b.new_ike_sa is not None:
+        return {'class': ['preauth'], 'violation': f'before any AUTH was presented, a protected {kind} request left the responder in state '
+                                                  f'{b.state.name} with {len(b.child_sas)} CHILD_SA(s), {len(new)} kernel SA(s) requested, successor IKE_SA: {b.new_ike_sa is not None}'}
+    return ['preauth', b.state.name]
+
+
 def build_instances(tier):
     inst = []
     nat = common.native_of
+    for kind in ('create_child', 'rekey_ike', 'delete'):
+        inst.append(Instance(f'request before IKE_AUTH: {kind}', h_preauth, (kind,), native=nat(h_preauth)))
     for role in ('responder', 'initiator'):
         for ck in ('psk', 'rsa_only', 'both'):
             inst.append(Instance(f'verify {role} {ck}', h_verify, (role, ck), pin=('id_type', 'id_data', 'method'),
